@@ -72,8 +72,10 @@ class PrecipitationData:
 
 class TemperatureParameters:
     def __init__(self, *args):
-        self.setTemperatureParameters(*args)
+        #Default before the parameters are installed: the setters below record
+        #whether the schedule is isothermal (this selects the incubation time model)
         self._isIsothermal = True
+        self.setTemperatureParameters(*args)
 
     def setTemperatureParameters(self, *args):
         if len(args) == 2:
